@@ -500,3 +500,10 @@ Proof.
   intros. constructor; [apply init_Inv0|intros l []|exact H|].
   split; [constructor|]. intros k id. cbn. tauto.
 Qed.
+
+(* the state after a history *)
+Definition reachable (t0 : Z) (fund : Z -> Z -> Z) (allowed : list Z) (ops : list op) : state :=
+  run (init_state t0 fund allowed) ops.
+
+Lemma reachable_Inv : forall t0 fund allowed ops, 0 < t0 -> Forall op_sender_ok ops -> Inv (reachable t0 fund allowed ops).
+Proof. intros. apply run_Inv; [apply init_Inv; assumption|assumption]. Qed.
